@@ -174,7 +174,7 @@ CHECKS["C15"] = dict(
          "decoded with the LSP relative encoding and compared with an independent lexical classifier written from "
          "Annex B.1: strictly increasing, each range exactly one lexeme, legend entry allowed for the class, every "
          "identifier and comment present, null for invalid text.",
-    note="Length/character accepted in characters or UTF-16 units; a form feed separates tokens and does not end a line; "
+    note="Character and length are UTF-16 code units (LSP's default position encoding); a form feed separates tokens and does not end a line; "
          "OSCAT description bodies are modelled as blanks.",
     technique="decoded-answer oracle against an independent lexical classifier")
 
